@@ -20,6 +20,7 @@ TABLE = {
   ('C01_iter_from', 'IterP', 'coll_iter_from_spec'), ('C01_tree_get', 'WulP', 'get_rec_canon'),
   ('C01_flush_tree', 'WulP', 'wul_canon'),
   ('C01_flush', 'CollCtorP', 'apply_spec'), ('C01_pop_front', 'CollCtorP', 'pop_front_spec'),
+  ('C01_with_builder_interleaved', 'BuilderSysP', 'interleave_refines'), ('C01_builder_does_not_change_answers', 'BuilderSysP', 'interleave_same_answers'),
   ('C01_step_refines', 'Refine', 'step_refines'), ('C01_run_refines', 'Refine', 'run_refines'), ('C01_spec_det', 'Refine', 'spec_det'),
  ],
  'C02': [
@@ -37,14 +38,14 @@ TABLE = {
   ('C03_root_gok', 'CollObsP', 'coll_root_spec'), ('C03_rebase_gok', 'CollObsP', 'coll_rebase_spec'),
   ('C03_intra_gok', 'CollObsP', 'coll_intra_spec_gok'),
   ('C03_inv', 'Refine', 'step_refines'),
-  ('C03_hash_invisible', 'InvisibleP', 'hash_invisible'), ('C03_silent_ops_invisible', 'InvisibleP', 'silent_ops_invisible'),
+  ('C03_hash_invisible', 'InvisibleP', 'hash_invisible'), ('C03_hash_invisible_after_decode', 'InvisibleP', 'hash_invisible_decode'), ('C03_silent_ops_invisible', 'InvisibleP', 'silent_ops_invisible'),
   ('C03_invisible_example', 'InvisibleP', 'invisible_u64'), ('C03_abandoned_hashing_is_harmless', 'FaultP', 'abandoned_hashing_is_harmless'), ('C03_hash_invisible_every_configuration', 'ClosureP', 'hash_invisible_all'),
  ],
  'C04': [
   ('C04_spec_frame', 'FinalP', 'spec_frame'), ('C04_versions_isolated', 'FinalP', 'versions_isolated'), ('C04_versions_isolated_obs', 'FinalP', 'versions_isolated_obs'),
   ('C04_hash_frame', 'HashP', 'mvalid_changes'), ('C04_intra_frame', 'IntraP', 'mvalid_hchanges'),
   ('C04_rebase_base_untouched', 'RebaseP', 'coll_rebase_on_spec'),
-  ('C04_regs_frame', 'Refine', 'step_regs_frame'), ('C04_refines', 'Refine', 'step_refines'),
+  ('C04_builder_never_touches_registers', 'BuilderSysP', 'builder_regs_frame'), ('C04_regs_frame', 'Refine', 'step_regs_frame'), ('C04_refines', 'Refine', 'step_refines'),
  ],
  'C05': [
   ('C05_push_full', 'IfaceP', 'push_spec_full'), ('C05_push_vector', 'IfaceP', 'push_spec_vector'),
@@ -108,6 +109,10 @@ TABLE = {
   ('C12_encode', 'CollObsP', 'ssz_encode_spec'), ('C12_bytes_len', 'CollObsP', 'ssz_bytes_len_spec'),
   ('C12_roundtrip', 'CollObsP', 'list_from_ssz_roundtrip'), ('C12_strict', 'CollObsP', 'list_from_ssz_strict_spec'),
   ('C12_vec_roundtrip', 'CollObsP', 'vector_from_ssz_roundtrip'), ('C12_enc_refines', 'RefineB', 'refines_OSszEnc_valid'), ('C12_dec_refines', 'RefineB', 'refines_OSszList'), ('C12_vec_strict', 'CollObsP', 'vector_from_ssz_strict_spec'),
+  ('C12_list_decode_iff', 'SszDetP', 'ssz_list_decode_iff'), ('C12_vec_decode_iff', 'SszDetP', 'ssz_vec_decode_iff'),
+  ('C12_spec_decode_iff', 'Refine', 'spec_ssz_list_iff'), ('C12_spec_decode_vec_iff', 'Refine', 'spec_ssz_vec_iff'),
+  ('C12_serialize_injective', 'RefineB', 'serialize_inj_on'), ('C12_decode_full', 'RefineB', 'list_from_ssz_full'), ('C12_decode_vec_full', 'RefineB', 'vector_from_ssz_full'),
+  ('C12_spec_det', 'Refine', 'spec_det'),
   ('C12_fixed_len_static', 'SszStaticP', 'ssz_fixed_len_spec'), ('C12_list_is_variable', 'SszStaticP', 'ssz_list_is_variable'), ('C12_vector_fixed_iff', 'SszStaticP', 'ssz_vector_fixed_iff'), ('C12_not_fixed_len', 'SszStaticP', 'ssz_not_fixed_len'),
  ],
  'C13': [
@@ -129,6 +134,7 @@ TABLE = {
   ('C15_repeat_total', 'RepeatP', 'repeat_nodes'), ('C15_flush', 'CollCtorP', 'apply_spec'),
   ('C15_pop_front', 'CollCtorP', 'pop_front_spec'), ('C15_to_vector', 'CollCtorP', 'vector_try_from_spec'),
   ('C15_decode_total', 'CollObsP', 'list_from_ssz_strict_spec'), ('C15_step_safe', 'Refine', 'step_safe'), ('C15_no_panic', 'Refine', 'step_no_panic'), ('C15_refines', 'Refine', 'step_refines'), ('C15_bounds', 'Refine', 'reachable_bounds'), ('C15_every_configuration_step', 'ClosureP', 'every_configuration_step'),
+  ('C15_builder_session_no_panic', 'BuilderSysP', 'value_session_no_panic'), ('C15_builder_new_push_total', 'BuilderSysP', 'bop_step'), ('C15_decode_total_and_exact', 'SszDetP', 'ssz_list_decode_iff'),
  ],
  'C16': [
   ('C16_step_sound', 'ConcP', 'astep_sound'), ('C16_any_schedule_safe', 'ConcP', 'any_schedule_safe'),
@@ -147,7 +153,14 @@ TABLE = {
   ('C17_invalid_depth', 'BuilderP', 'new_invalid_depth'), ('C17_push_node', 'BuilderP', 'feed_canon_idf'),
   ('C17_needs_values_at_level_0', 'BuilderP', 'feed_canon_needs_values_at_level_0'),
   ('C17_hash', 'HashP', 'shash_canon_merkle'), ('C17_one_at_a_time', 'WulP', 'wul1_canon'),
-  ('C17_count', 'BuilderP', 'build_canon_count'), 
+  ('C17_count', 'BuilderP', 'build_canon_count'),
+  ('C17_session', 'BuilderSysP', 'value_session_ok'), ('C17_session_root_is_ssz', 'BuilderSysP', 'value_session_root'),
+  ('C17_session_full', 'BuilderSysP', 'value_session_full'), ('C17_session_invalid_depth', 'BuilderSysP', 'value_session_invalid_depth'),
+  ('C17_new_invalid_depth_any_state', 'BuilderSysP', 'new_invalid_depth_sys'),
+  ('C17_session_no_panic', 'BuilderSysP', 'value_session_no_panic'), ('C17_session_reachable', 'BuilderSysP', 'value_session_reachable'),
+  ('C17_subtree_session', 'BuilderSysP', 'node_session_ok'),
+  ('C17_interleaved_session', 'BuilderSysP', 'interleave_session'), ('C17_builder_ops_frame', 'BuilderSysP', 'bop_frame'),
+  ('C17_closed_u64', 'BuilderSysP', 'value_session_u64'),
  ],
 }
 
